@@ -24,6 +24,39 @@ Theorem pins_only_setup_versions jf sf w e top plist force rd ls out o n v :
 Proof. apply pins_sound. Qed.
 Print Assumptions pins_only_setup_versions.
 
+(* The same over the environment a build leaves behind.  [setup w cfg fuel st0 ds req true 0 just] is
+   Eups.setup of Model/Setup.v for an arbitrary request, world and stream of version decisions.  Its run
+   may have started optional dependencies - found, recorded in their SETUP_ variables - whose tables
+   could not be executed to the end (a variable that is not defined, a required product that does not
+   exist) and rolled them back (failed_optional_is_rolled_back below).  No hypothesis excludes that:
+   whatever happened on the way, an expansion that reads the final environment pins only versions
+   recorded in it (or given in the productList), and pins no product that has no SETUP_ variable in it.
+   What the instance remembers having started does not count (remembered_is_not_set_up_refuted below). *)
+Theorem pins_only_what_setup_left_set_up jf sf w cfg fuel st0 ds req just ok st' ds' top plist force rd ls out o n v :
+  setup w cfg fuel st0 ds req true 0 just = RDone ok st' ds' ->
+  expand_gen jf sf w (s_env st') top plist force rd ls = Ok out ->
+  In (OPin o n v) out ->
+  (recorded (s_env st') n v \/ alookup n plist = Some v) /\
+  (alookup (setup_var n) (s_env st') = None -> alookup n plist = Some v).
+Proof.
+  intros _ E I. split; [eapply pins_sound; eauto|eapply pins_need_a_record; eauto].
+Qed.
+Print Assumptions pins_only_what_setup_left_set_up.
+
+(* the roll-back itself, in the loop over the actions of a table (Eups.setup 2065-2072, pushStack /
+   popStack env around a dependency): when the setup of an optional dependency fails - with whatever
+   state st1, in which the dependency and everything below it may be recorded - the loop goes on from
+   the state st it had before the dependency was started; a required one makes the table fail from st *)
+Theorem failed_optional_is_rolled_back cfg rec depth just optional nm jst acts st ds st1 ds1 :
+  cut_off cfg just (S depth) = false ->
+  rec st ds nm true (S depth) jst = RDone false st1 ds1 \/ rec st ds nm true (S depth) jst = RRaise st1 ds1 ->
+  run_actions cfg rec true depth just (ASetup optional nm jst :: acts) st ds
+  = if optional then run_actions cfg rec true depth just acts st ds1 else RRaise st ds1.
+Proof.
+  intros C R. destruct optional; [now apply failed_optional_rolled_back with st1|now apply failed_required_raises with st1].
+Qed.
+Print Assumptions failed_optional_is_rolled_back.
+
 (* the exact reading holds no setup line other than the pins: every setup line it runs is -j with an
    explicit version *)
 Theorem exact_block_is_pins_only jf sf w e top plist force rd ls out :
@@ -161,7 +194,7 @@ Definition sl (opt : bool) (n : string) (flags : list str) (v : option str) (lg 
      sl_logical := lg; sl_orig := lit orig |}.
 Arguments sl opt n%string flags v lg orig%string.
 
-Definition xcfg : config := {| c_flavor := lit "Linux64"; c_root := lit "/s"; c_max_depth := None; c_keep := false |}.
+Definition xcfg : config := {| c_flavor := lit "Linux64"; c_root := lit "/s"; c_max_depth := None; c_keep := false; c_flavors := [] |}.
 Definition xprod (n v : string) (acts : list action) : product :=
   {| p_name := lit n; p_version := lit v; p_dir := lit "/s/" ++ lit n ++ lit "/" ++ lit v; p_actions := acts |}.
 Arguments xprod n%string v%string acts.
@@ -323,6 +356,88 @@ Example conflict_pins_the_set_up_version :
   option_map (fun o => shown (pins_of o)) (ok_out (expand xworld xenv (lit "top") [] false xraw xlines))
     = Some [("b", "1.0", false); ("a", "2.0", false); ("c", "1.0", false)]%string.
 Proof. vm_compute. reflexivity. Qed.
+
+(* ------------------------------------------------------------ an optional dependency that fails part-way *)
+
+(* top -> a, b;  a -> c, setupOptional(x);  b -> c;  x -> c, y, and then a line that needs a variable nobody
+   defines.  Setting top up starts x two levels down: SETUP_X is recorded, c is there already, y is set up,
+   the envSet fails, and a - x being optional - goes on from the environment it had before x. *)
+Definition fx_actions (broken : bool) : list action :=
+  [ASetup false (lit "c") false; ASetup false (lit "y") false] ++
+  (if broken then [ASet (lit "X_CONF") (lit "${X_SITE_DIR}/x.conf")] else []).
+Definition fworld_gen (broken : bool) : world :=
+  [ xprod "c" "1.0" [ASet (lit "C_HOME") (lit "/s/c/1.0")];
+    xprod "c" "2.0" [];
+    xprod "y" "1.0" [];
+    xprod "x" "1.0" (fx_actions broken);
+    xprod "a" "1.0" [ASetup false (lit "c") false; ASetup true (lit "x") false];
+    xprod "b" "1.0" [ASetup false (lit "c") false];
+    xprod "top" "1.0" [ASetup false (lit "a") false; ASetup false (lit "b") false] ].
+Definition fworld : world := fworld_gen true.
+(* the decisions of the resolver, one per forward call: top, a, c, x, c (already set up), y, b, c *)
+Definition fdecisions : list decision := map (fun _ => Some (lit "1.0")) (seq 0 8).
+Definition fenv_of (w : world) : amap str :=
+  match setup w xcfg 6 xst0 fdecisions (lit "top") true 0 false with
+  | RDone true st' [] => s_env st'
+  | _ => []
+  end.
+Definition fenv : amap str := fenv_of fworld.
+(* what Table.dependencies lists below a 1.0 and b 1.0 *)
+Definition fraw : rawdeps :=
+  [ (lit "a", lit "1.0", [ {| d_name := lit "c"; d_optional := false; d_depth := 1 |};
+                           {| d_name := lit "x"; d_optional := true; d_depth := 1 |};
+                           {| d_name := lit "y"; d_optional := false; d_depth := 2 |} ]);
+    (lit "b", lit "1.0", [ {| d_name := lit "c"; d_optional := false; d_depth := 1 |} ]) ].
+Definition flines : list tline :=
+  [ LSetup (sl false "a" [] None None "setupRequired(a)");
+    LSetup (sl false "b" [] None (Some (lit ">= 1.0")) "setupRequired(b [>= 1.0])");
+    LOther (lit "envPrepend(TOP_PATH, ${PRODUCT_DIR}/bin)") ].
+Definition versions_in (e : amap str) : list (option string) :=
+  map (fun n => option_map String.string_of_list_ascii (setup_version e (lit n))) ["top"; "a"; "b"; "c"; "x"; "y"]%string.
+
+(* the build succeeds, consumes every decision, and neither x nor y is set up afterwards ... *)
+Example failed_optional_build :
+  (exists st', setup fworld xcfg 6 xst0 fdecisions (lit "top") true 0 false = RDone true st' [] /\ s_env st' = fenv) /\
+  versions_in fenv = [Some "1.0"; Some "1.0"; Some "1.0"; Some "1.0"; None; None]%string.
+Proof. split; [eexists; split|]; vm_compute; reflexivity. Qed.
+
+(* ... although x was started: called on its own from the environment a had reached, the setup of x raises
+   from a state that records both x and y (the state failed_optional_is_rolled_back calls st1) *)
+Example failed_optional_was_started :
+  match setup fworld xcfg 3
+              {| s_env := [(lit "SETUP_C", lit "c 1.0 -f Linux64 -Z /s"); (lit "SETUP_A", lit "a 1.0 -f Linux64 -Z /s")];
+                 s_aliases := [] |}
+              [Some (lit "1.0"); Some (lit "1.0"); Some (lit "1.0")] (lit "x") true 2 false with
+  | RRaise st1 [] => map (fun n => option_map String.string_of_list_ascii (setup_version (s_env st1) (lit n))) ["x"; "y"]%string
+  | _ => []
+  end = [Some "1.0"; Some "1.0"]%string.
+Proof. vm_compute. reflexivity. Qed.
+
+(* the hypotheses of pins_only_what_setup_left_set_up hold of this run, and the expansion pins a, c and b only *)
+Definition fout : list oline :=
+  match expand fworld fenv (lit "top") [] false fraw flines with Ok out => out | Err _ => [] end.
+Example failed_optional_is_not_pinned :
+  (exists st', setup fworld xcfg 6 xst0 fdecisions (lit "top") true 0 false = RDone true st' [] /\
+               expand fworld (s_env st') (lit "top") [] false fraw flines = Ok fout) /\
+  shown (pins_of fout) = [("a", "1.0", false); ("c", "1.0", false); ("b", "1.0", false)]%string /\
+  map (fun o => String.string_of_list_ascii (render o)) fout
+  = [ "if (type == exact) {"; "setupRequired(a -j 1.0)"; "setupRequired(c -j 1.0)"; "setupRequired(b -j 1.0)"; "} else {";
+      "setupRequired(a 1.0 [>= 1.0])"; "setupRequired(b 1.0 [>= 1.0])"; "}";
+      "envPrepend(TOP_PATH, ${PRODUCT_DIR}/bin)" ]%string.
+Proof. split; [eexists; split|split]; vm_compute; reflexivity. Qed.
+
+(* What the instance remembers is not what is set up.  [fenv_of (fworld_gen false)] records every product whose
+   setup the run above started (the world without the line that fails: x and y stay).  A closure collection that
+   looked there - Eups.alreadySetupProducts - instead of in the environment would pin x 1.0 and y 1.0, neither of
+   which is recorded in the environment the build left: the conclusion of pins_only_what_setup_left_set_up is
+   false of it. *)
+Example remembered_is_not_set_up_refuted :
+  let remembered := fenv_of (fworld_gen false) in
+  option_map (fun o => shown (pins_of o)) (ok_out (expand fworld remembered (lit "top") [] false fraw flines))
+    = Some [("a", "1.0", false); ("c", "1.0", false); ("x", "1.0", true); ("y", "1.0", false); ("b", "1.0", false)]%string /\
+  ~ recorded fenv (lit "x") (lit "1.0") /\ ~ recorded fenv (lit "y") (lit "1.0") /\
+  alookup (setup_var (lit "x")) fenv = None /\ alookup (setup_var (lit "y")) fenv = None.
+Proof. repeat split; try (intro R; vm_compute in R; discriminate R); vm_compute; reflexivity. Qed.
 
 (* ------------------------------------------------------------ the reader of C11 on the expanded text *)
 
